@@ -205,6 +205,9 @@ func (m *Mutex) TryLock() bool {
 		return false
 	}
 	m.locked = true
+	if e.race != nil {
+		e.race.acquire(e.cur, m)
+	}
 	return true
 }
 
@@ -240,6 +243,39 @@ func (m *RWMutex) Lock() {
 	t := e.cur
 	t.rw = m
 	e.point(opWLock, "", takeSite(t, 3))
+}
+
+// TryLock / TryRLock: a scheduling point, then the attempt.
+func (m *RWMutex) TryLock() bool {
+	e := ex
+	if e == nil || e.inKill() {
+		return true
+	}
+	e.point(opYield, "trylock", callerSite(2))
+	if m.w || m.r > 0 {
+		return false
+	}
+	m.w = true
+	if e.race != nil {
+		e.race.acquire(e.cur, m)
+	}
+	return true
+}
+
+func (m *RWMutex) TryRLock() bool {
+	e := ex
+	if e == nil || e.inKill() {
+		return true
+	}
+	e.point(opYield, "tryrlock", callerSite(2))
+	if m.w {
+		return false
+	}
+	m.r++
+	if e.race != nil {
+		e.race.acquire(e.cur, m)
+	}
+	return true
 }
 
 func (m *RWMutex) Unlock() {
